@@ -61,7 +61,7 @@ impl Property for C10 {
     fn components_stubbed(&self) -> Vec<&'static str> { vec!["WalStore -> SimWalStore (in-memory image, mutated at rest)"] }
     fn assumptions(&self) -> Vec<&'static str> { vec!["an entry counts as intact only if data, timestamp and checksum are bit-identical to what was appended"] }
     fn required_probes(&self) -> Vec<&'static str> { vec!["damage_inside_entry", "truncate_kept_newer", "multi_file_image"] }
-    fn runs(&self, tier: Tier) -> u64 { match tier { Tier::Quick => 400, Tier::Thorough => 6000 } }
+    fn runs(&self, tier: Tier) -> u64 { match tier { Tier::Quick => 8000, Tier::Thorough => 60000 } }
 
     fn run(&self, src: &mut Src, ctx: &RunCtx) -> RunReport {
         let mut rep = RunReport::default();
